@@ -11,6 +11,8 @@ from . import core, symnp, loader, spec, lcq, ztab, tables, circmetrics, couplin
 from .core import Ctx, explore, var, land, lxor, lor, lor_all, land_all, lxor_all, leq, mk, evaluate
 from .coupling_spec import NCLASSES
 
+RESET_MODULES = ("stabilizer_circuits", "stabilizer", "lc_classes", "find_local_clifford_layer", "f2_algebra",
+                 "rotate_stabilizer_into_state", "graph", "linear_index", "connectivity_support")
 EXC = (AssertionError, RuntimeError, ValueError, IndexError, KeyError, TypeError, AttributeError, ZeroDivisionError, NotImplementedError)
 
 
@@ -80,6 +82,8 @@ def leaf(job, api, want):
     n, conn = job["n"], job["conn"]
     sc = loader.sym("stabilizer_circuits")
     st = loader.sym("stabilizer")
+    for m in RESET_MODULES:       # no state may leak from one explored path into the next (lookup caches excepted: C13)
+        loader.reset_state(m)
     inp = build_input(job, ctx)
     X, Z, signs = inp["X"], inp["Z"], inp["signs"]
     R, S = spec.to_symarrays(X, Z)
@@ -111,6 +115,22 @@ def leaf(job, api, want):
             back = ztab.pull(p, gates)
             obs.append(land(lor_all(back.x) ^ 1, back.r ^ 1))
         ctx.prove("every given signed generator is pulled back to +Z-type (the circuit prepares exactly the requested state)", land_all(obs))
+        if job.get("resign"):
+            # history step: the caller flips the signs of the SAME object in place and asks again
+            ph = np.asarray(stab.phases)
+            for j in range(n):
+                ph[j] = mk((signs[j] ^ 1,))
+            try:
+                qc2 = sc.get_preparation_circuit(stab, conn)
+                g2 = ztab.gates_of(qc2)
+                obs = []
+                for j in range(n):
+                    p = ztab.P([X[q][j] for q in range(n)], [Z[q][j] for q in range(n)], signs[j] ^ 1)
+                    back = ztab.pull(p, g2)
+                    obs.append(land(lor_all(back.x) ^ 1, back.r ^ 1))
+                ctx.prove("after flipping all signs of the same object in place, a second call prepares the re-signed state", land_all(obs), info=dict(resign=True))
+            except EXC as e:
+                ctx.prove("second call after in-place sign flip raised %s" % type(e).__name__, 0, info=dict(resign=True))
     if "C03" in want and api == "readout":
         a = [var("ca%d" % j) for j in range(n)]
         x = [lxor_all([land(a[j], X[q][j]) for j in range(n)]) for q in range(n)]
@@ -201,6 +221,8 @@ def run_job(arg):
     for v in res.violations[:5]:
         c = concretise_case(job, v["model"])
         c["label"] = v["label"]
+        if (v.get("info") or {}).get("resign"):
+            c["resign"] = True
         c["api"] = api
         cands.append(c)
     nviol = len(res.violations)
@@ -217,7 +239,7 @@ def f3_jobs(tier, seed, signs="all"):
     jobs = []
     for (n, conn) in coupling_spec.ADVERTISED:
         if n == 2:
-            jobs.append(dict(family="F3", n=2, conn=conn, signs=signs, seed=seed))
+            jobs.append(dict(family="F3", n=2, conn=conn, signs=signs, seed=seed, resign=True))
         elif n == 3:
             names = ["tx0_0", "tz0_0", "tx1_0", "tz1_0", "tx2_0", "tz2_0", "tx0_1", "tz0_1", "tx1_1", "tz1_1"]
             p = 6 if tier == "thorough" else 9
@@ -259,7 +281,7 @@ def fc_jobs(tier, seed, signs_quick=("affine", 2), signs_thorough=("affine", 2),
                     wsize = 1
                 window = sorted(r2.sample(range(n), wsize))
                 B = spec.random_invertible(n, r2) if r2.random() < 0.5 else None
-                jobs.append(dict(family="Fc", n=n, conn=conn, cls=cls, adj=adj, base_layer=base, window=window, B=B,
+                jobs.append(dict(family="Fc", n=n, conn=conn, cls=cls, adj=adj, base_layer=base, window=window, B=B, resign=(r2.random() < 0.25),
                                  signs=signs_quick if tier == "quick" else signs_thorough, seed=seed * 13 + cls))
     return jobs
 
